@@ -122,6 +122,9 @@ class Job:
                 self.record(name, "error", 0.0, bound, str(ex))
                 return "error"
             self.solver_s += r.seconds
+            if expect == "info":
+                self.record(name, f"{r.verdict}(info)", r.seconds, bound, note)
+                return r.verdict
             if r.verdict == "unsat":
                 if tried:
                     self.errors.append(f"{name}: counterexample(s) found by the solver did not reproduce on the "
